@@ -323,7 +323,7 @@ def t1_typestate(chk):
     """typestate analysis of compile() (rules/compile_ts.py): end-to-end bookkeeping invariants for an arbitrary
     module over every outcome of every component call"""
     from rules import compile_ts
-    compile_ts.ts_rule(chk, 'C09.T1', ['abort', 'drained', 'failed-pairing'])
+    compile_ts.ts_rule(chk, 'C09.T1', ['abort', 'failed-pairing', 'stale-failure', 'failure-forgotten'])
 
 
 RULES = [r1_guard, r2_unprocessed_marking, r3_failed_only_forgotten_on_success, r4_write_loop_covers_all,
